@@ -1,8 +1,10 @@
 package swapsim
 
 import (
+	"encoding/hex"
 	"fmt"
 	"testing"
+	"time"
 
 	"pgregory.net/rapid"
 
@@ -75,4 +77,134 @@ func containsStr(s, sub string) bool {
 		}
 	}
 	return false
+}
+
+// TestC10ConcurrentRequests: the channel lock under overlapping entry points. A request (or a recovery) is
+// parked at a scheduling point inside its handler - while it talks to the lightning node, the watcher or
+// the store - and a second request for the same channel (either spelling, from the same peer) is handled
+// meanwhile on another goroutine, as the daemon's message loop does. However the two interleave, the
+// channel ends with at most one non-terminal swap and the loser is answered with cancel.
+func TestC10ConcurrentRequests(t *testing.T) {
+	col := stats.Get("C10.concurrent")
+	rapid.Check(t, func(t *rapid.T) {
+		w := sim.NewWorld()
+		defer w.Close()
+		a := w.AddNode("alice")
+		m := w.AddNode("mallory")
+		w.LN.AddChannel("300x3x0", a.Id, m.Id, 5_000_000_000, 5_000_000_000)
+		if err := a.Boot(); err != nil {
+			t.Fatal(err)
+		}
+		chain := rapid.SampledFrom([]string{"btc", "lbtc"}).Draw(t, "chain")
+		key := hex.EncodeToString(sim.KeyFromName("c10-requester").PubKey().SerializeCompressed())
+		scids := []string{"300x3x0", "300:3:0"}
+		mode := rapid.SampledFrom([]string{"two-requests", "two-requests", "request-during-recovery"}).Draw(t, "mode")
+		t1, t2 := rapid.SampledFrom([]int{mtSwapInRequest, mtSwapOutRequest}).Draw(t, "type1"), rapid.SampledFrom([]int{mtSwapInRequest, mtSwapOutRequest}).Draw(t, "type2")
+		id1, id2 := freshId(t), freshId(t)
+		deliver := func(typ int, id, scid string) *goTask {
+			p := buildMessage(t, typ, id, scid, chain, key)
+			return goRun(func() { a.Deliver(m.Id, typ, p) })
+		}
+		var parkAt string
+		desc := ""
+		if mode == "two-requests" {
+			parkAt = rapid.SampledFrom([]string{"ln.ProbePayment:enter", "ln.ReceivableMsat:enter", "ln.SpendableMsat:enter", "store.UpdateData:enter", "wallet.GetOnchainBalance:enter", "ln.GetPayreq:enter", "msg.Send:enter"}).Draw(t, "parkAt")
+			parked := make(chan struct{})
+			w.Locked(func() { w.ParkOn, w.ParkOnNode, w.Parked = parkAt, "alice", parked })
+			r1 := deliver(t1, id1, rapid.SampledFrom(scids).Draw(t, "scid1"))
+			select {
+			case <-parked:
+			case <-r1.done:
+			case <-time.After(2 * time.Second):
+			}
+			r2 := deliver(t2, id2, rapid.SampledFrom(scids).Draw(t, "scid2"))
+			r2.wait(300 * time.Millisecond) // it may finish now or have to wait for the first one
+			w.Locked(func() { w.ParkOn = "" })
+			w.Release()
+			if !r1.wait(5*time.Second) || !r2.wait(5*time.Second) {
+				t.Fatalf("VKEY[C18/entry-point-never-returned] overlapping requests (parked at %s) never returned", parkAt)
+			}
+			desc = fmt.Sprintf("two-requests types=%d,%d park=%s chain=%s", t1, t2, parkAt, chain)
+		} else {
+			// a swap is under way, the node restarts, and a request arrives while RecoverSwaps is running
+			r1 := deliver(t1, id1, scids[0])
+			r1.wait(5 * time.Second)
+			a.Kill()
+			if err := a.Boot(); err != nil {
+				t.Fatal(err)
+			}
+			parkAt = rapid.SampledFrom([]string{"ln.AddPaymentNotifier:enter", "store.UpdateData:enter", "watcher.GetBlockHeight:enter", "msg.Send:enter", "mgr.RemoveSender:enter"}).Draw(t, "parkAt")
+			parked := make(chan struct{})
+			w.Locked(func() { w.ParkOn, w.ParkOnNode, w.Parked = parkAt, "alice", parked })
+			rec := goRun(func() { a.Recover() })
+			select {
+			case <-parked:
+			case <-rec.done:
+			case <-time.After(2 * time.Second):
+			}
+			if rec.finished() {
+				// recovery did not pass that point: the request below arrives after recovery (plain case)
+				parkAt += "(not reached)"
+			}
+			r2 := deliver(t2, id2, rapid.SampledFrom(scids).Draw(t, "scid2"))
+			r2.wait(300 * time.Millisecond)
+			w.Locked(func() { w.ParkOn = "" })
+			w.Release()
+			if !rec.wait(5*time.Second) || !r2.wait(5*time.Second) {
+				t.Fatalf("VKEY[C18/entry-point-never-returned] request during recovery (parked at %s) never returned", parkAt)
+			}
+			desc = fmt.Sprintf("request-during-recovery types=%d,%d park=%s chain=%s", t1, t2, parkAt, chain)
+		}
+		// the invariant
+		var live []string
+		for _, s := range a.Swaps() {
+			if !isTerminal(s.Current) && s.Data != nil && sim.NormScid(s.Data.GetScid()) == "300x3x0" {
+				live = append(live, fmt.Sprintf("%s(%s)", s.SwapId.String()[:6], s.Current))
+			}
+		}
+		if len(live) > 1 {
+			key := "C10/two-active-swaps:overlapping-requests"
+			if mode != "two-requests" {
+				key = "C10/two-active-swaps:request-during-recovery"
+			}
+			col.Violation(t, key, "%s: the channel has %d non-terminal swaps: %v\n%s", desc, len(live), live, tail(sim.LogDump(), 20))
+			return
+		}
+		// whoever was refused got a cancel
+		for _, id := range []string{id1, id2} {
+			rec := recOf(a, id)
+			admitted := rec != nil && !isTerminal(rec.Current)
+			if !admitted && !sentCancelFor(a, id) && rec != nil {
+				col.Violation(t, "C10/refused-without-cancel", "%s: request %s was refused (state %s) but no cancel was sent", desc, id[:6], rec.Current)
+				return
+			}
+		}
+		col.Case(desc, true, map[string]interface{}{"mode": mode, "park": parkAt, "live": live}, "mode:"+mode, fmt.Sprintf("live:%d", len(live)))
+	})
+}
+
+type goTask struct{ done chan struct{} }
+
+func goRun(f func()) *goTask {
+	g := &goTask{done: make(chan struct{})}
+	go func() { defer close(g.done); f() }()
+	return g
+}
+
+func (g *goTask) wait(d time.Duration) bool {
+	select {
+	case <-g.done:
+		return true
+	case <-time.After(d):
+		return false
+	}
+}
+
+func (g *goTask) finished() bool {
+	select {
+	case <-g.done:
+		return true
+	default:
+		return false
+	}
 }
